@@ -20,7 +20,7 @@ PANDAS_TRUST = [
     'index[mask], reset_index, sort_values, fancy-index sum',
 ]
 MM_FUNCS = [CLS + f for f in (
-    'geos_over_budget', 'geos_too_large', 'geos_must_include',
+    '__init__', 'geos_over_budget', 'geos_too_large', 'geos_must_include',
     'geos_within_constraints', 'geo_assignments',
     'treatment_group_size_range', '_control_group_size_generator',
     'treatment_group_generator', 'control_group_generator',
@@ -84,15 +84,15 @@ def define(*a, **k):
 define(
     'C01', 'proof',
     [('geoeligibility', None, False), ('tbrmmdata', None, False),
-     mm(['geos_over_budget', 'geos_too_large', 'geos_must_include',
-         'geos_within_constraints', 'geo_assignments',
+     mm(['__init__', 'geos_over_budget', 'geos_too_large',
+         'geos_must_include', 'geos_within_constraints', 'geo_assignments',
          'treatment_group_generator', 'control_group_generator',
          'exhaustive_search', 'greedy_search', 'search_results'])],
     ENGINE_TRUST + PANDAS_TRUST + [
-        'TBRMMData.__init__ establishes the data invariant (bounded monitor '
-        'C15 only)',
-        'index -> ID transfer of the returned list (search_results) is '
-        'covered by the bounded monitor until its contract is discharged',
+        'object invariants are established by the constructors '
+        '(TBRMMData.__init__, TBRMatchedMarkets.__init__: proved over the '
+        'pandas ledger; GeoEligibility.__init__ validation: ASSUMED, bounded '
+        'monitor C16) and assumed on entry to every other method',
     ],
     ['designs are stated at index level at the push site; legality of the '
      'admitted set is proved at ID level'],
@@ -268,13 +268,23 @@ define(
     'C15', 'exploration',
     [('tbrmmdata', None, False),
      ('geoeligibility', ['GeoEligibility.get_eligible_assignments'], False)],
-    ENGINE_TRUST + PANDAS_TRUST,
-    ['the canonical form (pivot/sort/share) is the pandas contract itself: '
-     'bounded only'],
-    'geo_index setter (reject-or-install, index classes, row/share arrays in '
-    'the given order) and both aggregations are proved; canonical form, '
-    'shares and reconciliation are a bounded run-time contract against a '
-    'plain-Python recomputation.',
+    ENGINE_TRUST + PANDAS_TRUST + [
+        'pandas steps of TBRMMData.__init__ (copy, astype, pivot_table, '
+        'mean, sort_values, Series/scalar, pd.DataFrame of all-ones rows) '
+        'keep the label sets as stated in the ledger; what they compute is '
+        'not interpreted',
+        'GeoEligibility.__init__: ASSUMED contract (raises ValueError or '
+        'stores the table unchanged); validation covered by C16\'s monitor'],
+    ['the canonical form (pivot/sort/share values) is the pandas contract '
+     'itself: bounded only'],
+    'Proved: TBRMMData.__init__ establishes the data invariant, stores the '
+    'given eligibility table restricted to the geos in the data (all-ones '
+    'rows when none is given), and returns only if every geo that cannot be '
+    'excluded is in the data and the required columns are present (only '
+    'ValueError escapes); geo_index setter (reject-or-install, index '
+    'classes, row/share arrays in the given order) and both aggregations. '
+    'Canonical form and share values are a bounded run-time contract '
+    'against a plain-Python recomputation.',
     'DESIGN.md section 7, C15',
     'Mixed: level is the weaker (bounded) one.')
 
